@@ -90,7 +90,7 @@ def main():
     na = [{"property_id": p, "reason": "check not built yet (work in progress; DESIGN.md section 3 has the plan)"} for p in ALL if p not in CHECKS]
     m = {
         "version": 1,
-        "setup_cmd": "cd /verif/harness && CARGO_NET_OFFLINE=true cargo build --release --offline && CARGO_NET_OFFLINE=true cargo build --profile nochecks --offline",
+        "setup_cmd": "cd /verif/harness && CARGO_NET_OFFLINE=true cargo build --release --offline && CARGO_NET_OFFLINE=true cargo build --profile nochecks --offline && CARGO_NET_OFFLINE=true cargo test --release --offline --test oracle_selftest",
         "hooks": {
             "guard": "verif-hooks",
             "enable": "cargo feature `verif-hooks` of http-serve, enabled by the path dependency in /verif/harness/Cargo.toml (http-serve = { path = \"/repo\", features = [\"dir\", \"verif-hooks\"] })",
